@@ -203,6 +203,35 @@ class P3(sm.P2):
             pass
         return super().primary(ns)
 
+    def else_part(self, line):
+        if not self.isid("else"):
+            return None
+        self.eat()
+        if self.isid("if"):
+            nested = self.iflet() if self.isid("let", 1) else self.if_()
+            return ("block", [("ifstmt", nested, line)], None)
+        return self.block()
+
+    def iflet(self):
+        line = self.peek().line
+        self.expect_id("if")
+        self.expect_id("let")
+        pat = self.pattern()
+        self.expect_p("=")
+        e = self.expr(no_struct=True)
+        a = self.block()
+        return ("iflet", pat, e, a, self.else_part(line), line)
+
+    def if_(self):
+        line = self.peek().line
+        self.expect_id("if")
+        if self.isid("let"):
+            self.i -= 1
+            return self.iflet()
+        c = self.expr(no_struct=True)
+        a = self.block()
+        return ("if", c, a, self.else_part(line), line)
+
     def match_(self):
         line = self.peek().line
         self.expect_id("match")
@@ -894,14 +923,29 @@ NODES = {
                    {"parent_class_list": ("Some n_ps", ("opt", "ParentClassList")), "body": ("Some n_b", ("opt", "Body"))}),
     "Body": ([("n_b", "list item")], {"items": ("n_b", ("list", "BodyItem"))}),
 }
+NODES.update({
+    "Value": ([("n_v", "value")], {"inner_values": ("value_inners %s", ("list", "InnerValue"))}),
+    "InnerValue": ([("n_x", "inner")], {"simple_value": ("Some (inner_simple %s)", ("opt", "SimpleValue")),
+                                        "suffixes": ("inner_sufs %s", ("list", "ValueSuffix"))}),
+    "BitsType": ([], {"length": ("Some %s", ("opt", "Integer"))}),          # %s = the bound variable (the CoreAst field itself)
+    "ListType": ([], {"inner_type": ("Some %s", ("opt", "Type"))}),
+    "ClassId": ([], {"name": ("Some %s", ("opt", "Identifier"))}),
+    "FieldDef": ([("n_t", "ty"), ("n_i", "ident"), ("n_v", "option value")],
+                 {"name": ("Some n_i", ("opt", "Identifier")), "type": ("Some n_t", ("opt", "Type")), "value": ("n_v", ("opt", "Value"))}),
+    "FieldLet": ([("n_i", "ident"), ("n_v", "value")], {"name": ("Some n_i", ("opt", "Identifier")), "value": ("Some n_v", ("opt", "Value"))}),
+    "TemplateArgDecl": ([("n_t", "ty"), ("n_i", "ident"), ("n_d", "option value")],
+                        {"name": ("Some n_i", ("opt", "Identifier")), "type": ("Some n_t", ("opt", "Type")), "value": ("n_d", ("opt", "Value"))}),
+    "Integer": ([("n_n", "N")], {"value": ("Some n_n", ("opt", "i64"))}),
+})
 # how a value of a node type is passed to an `ix_` function / what its Coq type is
 NODE_COQ = {"Identifier": "ident", "StatementList": "list stmt", "Statement": "stmt", "Value": "value", "Type": "ty",
             "TemplateArgList": "list targ", "TemplateArgDecl": "targ", "RecordBody": "(list classref * list item)",
             "ParentClassList": "list classref", "Body": "list item", "BodyItem": "item", "LetList": "list value",
-            "LetItem": "value", "ForeachIterator": "(ident * feinit)", "ForeachIteratorInit": "feinit"}
+            "LetItem": "value", "ForeachIterator": "(ident * feinit)", "ForeachIteratorInit": "feinit", "Integer": "N"}
 IX_RET = {"StatementList": "unit", "Statement": "unit", "Value": "mty", "Type": "mty", "TemplateArgList": "unit",
           "TemplateArgDecl": "unit", "RecordBody": "unit", "ParentClassList": "unit", "Body": "unit", "BodyItem": "unit",
-          "LetList": "unit", "LetItem": "unit", "ForeachIterator": "(name * N)", "ForeachIteratorInit": "mty"}
+          "LetList": "unit", "LetItem": "unit", "ForeachIterator": "(name * N)", "ForeachIteratorInit": "mty", "Integer": "N"}
+IX_TY = {"Value": "mty", "Type": "mty", "ForeachIteratorInit": "mty", "Integer": "i64", "ForeachIterator": "(name * N)"}
 # enum nodes: variant -> (CoreAst constructor pattern, bound node type or None, how the rendering of that impl is called)
 ENUM_NODES = {
     "Statement": ("stmt", [("Include", "SInclude r t", None), ("Assert", "SAssert c m", ("Assert", "c m")),
@@ -915,7 +959,11 @@ ENUM_NODES["BodyItem"] = ("item", [("FieldDef", "IField t i v", ("FieldDef", "t 
                                   ("Assert", "IAssert c m", ("Assert", "c m")), ("Defvar", "IDefvar i v", ("Defvar", "i v")),
                                   ("Dump", "IDump v", ("Dump", "v"))])
 # enum nodes matched for a value: Rust variant -> (CoreAst pattern, [(bound name, node type)])
-VALUE_ENUMS = {"ForeachIteratorInit": {"RangeList": ("FeRange", None), "RangePiece": ("FeRange", None), "Value": ("FeValue", "Value")}}
+VALUE_ENUMS = {"Type": {"BitType": ("TyBit", None), "IntType": ("TyInt", None), "StringType": ("TyString", None),
+                        "CodeType": ("TyCode", None), "DagType": ("TyDag", None), "BitsType": ("TyBits", "BitsType"),
+                        "ListType": ("TyList", "ListType"), "ClassId": ("TyClass", "ClassId")},
+               "SimpleValue": {"Identifier": ("SId", "Identifier")},
+               "ForeachIteratorInit": {"RangeList": ("FeRange", None), "RangePiece": ("FeRange", None), "Value": ("FeValue", "Value")}}
 MESSAGES = [("include file not found", "DIncludeNotFound"), ("class not found", "DClassNotFound"),
             ("multiclass not found", "DMulticlassNotFound"), ("symbol not found", "DSymbolNotFound"),
             ("class cannot inherit from itself", "DSelfInherit"), ("too many arguments", "DTooManyArgs"),
@@ -924,12 +972,19 @@ MESSAGES = [("include file not found", "DIncludeNotFound"), ("class not found", 
             ("the name of named argument", "DNamedArgBad"), ("field '", "DFieldIncompat"), ("cannot access field", "DCannotAccessField")]
 
 
+TYPE_CONSTS = {"Unknown": "MUnknown", "Int": "MInt", "Bit": "MBit", "String": "MString", "Code": "MCode", "Dag": "MDag",
+               "Uninitialized": "MUninit", "Any": "MAny"}
+ID_SYM = {"RecordId": "SyRecord", "MulticlassId": "SyMc", "VariableId": "SyLeaf", "DefsetId": "SyLeaf", "DefmId": "SyLeaf",
+          "RecordFieldId": "SyLeaf", "TemplateArgumentId": "SyLeaf"}
+
+
 class IxGen:
     """renders one `impl Indexable for ast::X` (or free fn of index.rs) in the monad M, with the indexing of child
     nodes left to the parameters ix_<NodeType> (open recursion)"""
 
     def __init__(self):
         self.used = []
+        self.sv, self.sv_used = None, False
 
     def no(self, line, msg):
         raise Refuse("%s:%d: %s" % (INDEX, line or 0, msg))
@@ -956,10 +1011,8 @@ class IxGen:
                 if path[0] not in env:
                     self.no(line, "unknown name %s" % path[0])
                 return env[path[0]]
-            if path == ["Type", "Unknown"]:
-                return "MUnknown", "mty"
-            if path == ["Type", "Int"]:
-                return "MInt", "mty"
+            if len(path) == 2 and path[0] == "Type" and path[1] in TYPE_CONSTS:
+                return TYPE_CONSTS[path[1]], "mty"
             if len(path) == 2 and path[0] == "ScopeKind" and path[1] == "Block":
                 return "KBlock", "skind"
             self.no(line, "path %s" % "::".join(path))
@@ -980,6 +1033,23 @@ class IxGen:
                             self.no(line, "%s(%s)" % (name, t))
                         cs.append(atom(c))
                     return "%s %s" % (tab[f[1][1]][0], " ".join(cs)), "skind"
+            if name == "Type::Bits" and len(args) == 1:
+                c, t = self.tr(args[0], env)
+                if t not in ("usize", "i64"):
+                    self.no(line, "Type::Bits(%s)" % (t,))
+                return "MBits %s" % atom(c), "mty"
+            if name == "Type::List" and len(args) == 1 and args[0][0] == "call" and args[0][1][0] == "path" \
+                    and args[0][1][1] == ["Box", "new"] and len(args[0][2]) == 1:
+                c, t = self.tr(args[0][2][0], env)
+                if t != "mty":
+                    self.no(line, "Type::List(%s)" % (t,))
+                return "MList %s" % atom(c), "mty"
+            if name == "Type::Record" and len(args) == 2:
+                a, ta = self.tr(args[0], env)
+                b, tb = self.tr(args[1], env)
+                if (ta, tb) != ("RecordId", "name"):
+                    self.no(line, "Type::Record(%s, %s)" % (ta, tb))
+                return "MRecord %s %s" % (atom(a), atom(b)), "mty"
             ctors = {"Record::new": ("RecordV", ["name", "RecordKind", "rng"]), "Multiclass::new": ("McV", ["name", "rng"]),
                      "Defset::new": ("leaf:LDefset", ["name", "mty", "rng"]), "Variable::new": ("leaf:LVar", ["name", "mty", "VariableKind", "rng"]),
                      "TemplateArgument::new": ("leaf:LTArg", ["name", "mty", "bool", "rng"]),
@@ -1015,10 +1085,54 @@ class IxGen:
         if k == "tuple":
             cs = [self.tr(x, env) for x in e[1]]
             return "(" + ", ".join(c for c, _ in cs) + ")", ("tuple", [t for _, t in cs])
+        if k == "un" and e[1] == "!":
+            c, t = self.tr(e[2], env)
+            if t != "bool":
+                self.no(e[3], "`!` on %s" % (t,))
+            return "negb %s" % atom(c), "bool"
+        if k == "field":
+            c, t = self.tr(e[1], env)
+            if t == "rng" and e[2] == "range":
+                return c, "rng"                     # FileRange.range: the same range (the file is re-attached by ctx.error)
+            self.no(e[3], "field .%s of %s" % (e[2], t))
         if k == "mcall":
             recv, m, args, line = e[1], e[2], e[3], e[4]
             if m in ("clone", "cloned"):
                 return self.tr(recv, env)
+            if m == "ok" and not args and recv[0] == "mcall" and recv[2] == "try_into" and not recv[3]:
+                c, t = self.tr(recv[1], env)
+                if t != "i64":
+                    self.no(line, "try_into() of %s" % (t,))
+                return "Some %s" % atom(c), ("opt", "usize")      # the CoreAst carries the width as a natural number
+            # reads of the context (need the current state: see tr_st)
+            if recv[0] == "field" and recv[1][0] == "path" and recv[1][1] == ["ctx"]:
+                S = self.state_var()
+                if recv[2] == "scopes" and m in ("current_record_id", "current_multiclass_id", "current_defm_id", "current_defset_id") and not args:
+                    idt = {"current_record_id": "RecordId", "current_multiclass_id": "MulticlassId", "current_defm_id": "DefmId",
+                           "current_defset_id": "DefsetId"}[m]
+                    return "%s %s" % (m, S), ("opt", idt)
+                if recv[2] == "symbol_map":
+                    if m in ("find_class", "find_def", "find_multiclass", "find_defset") and len(args) == 1:
+                        a, ta = self.tr(args[0], env)
+                        if ta != "name":
+                            self.no(line, "%s(%s)" % (m, ta))
+                        idt = {"find_class": "RecordId", "find_def": "RecordId", "find_multiclass": "MulticlassId", "find_defset": "DefsetId"}[m]
+                        return "%s %s %s" % (m, S, atom(a)), ("opt", idt)
+                    if m == "record" and len(args) == 1:
+                        a, ta = self.tr(args[0], env)
+                        if ta != "RecordId":
+                            self.no(line, "record(%s)" % (ta,))
+                        return a, ("recH",)
+                    if m == "record_field" and len(args) == 1:
+                        a, ta = self.tr(args[0], env)
+                        if ta != "RecordFieldId":
+                            self.no(line, "record_field(%s)" % (ta,))
+                        return a, ("leafH",)
+                    if m in ("record_mut", "multiclass_mut") and len(args) == 1:
+                        a, ta = self.tr(args[0], env)
+                        if ta != {"record_mut": "RecordId", "multiclass_mut": "MulticlassId"}[m]:
+                            self.no(line, "%s(%s)" % (m, ta))
+                        return a, ("mutH", m)
             # [a, b].into_iter().flatten()
             if m == "flatten" and recv[0] == "mcall" and recv[2] == "into_iter" and recv[1][0] == "array":
                 cs = [self.tr(x, env) for x in recv[1][1]]
@@ -1031,6 +1145,8 @@ class IxGen:
                 T = t[1]
                 if T in NODES and m in NODES[T][1] and not args:
                     ex, rt = NODES[T][1][m]
+                    if "%s" in ex:                       # a sub-node that is represented by the CoreAst field itself
+                        return ex % atom(c), self.node_ty(rt)
                     # the accessor expression is written over the parameters of the impl whose self it is
                     if c != "self":
                         self.no(line, "accessor .%s() on a node that is not `self`" % m)
@@ -1041,6 +1157,25 @@ class IxGen:
                     pass
             if isinstance(t, tuple) and t[0] == "syntax" and m == "text_range" and not args:
                 return "value_rng %s" % atom(c), "rng"
+            if isinstance(t, tuple) and t[0] == "recH" and m == "find_field" and len(args) == 2:
+                sm_arg = args[0]
+                while sm_arg[0] == "un":
+                    sm_arg = sm_arg[2]
+                if not (sm_arg[0] == "field" and sm_arg[1][0] == "path" and sm_arg[1][1] == ["ctx"] and sm_arg[2] == "symbol_map"):
+                    self.no(line, "find_field on a symbol map that is not ctx.symbol_map")
+                a, ta = self.tr(args[1], env)
+                if ta != "name":
+                    self.no(line, "find_field(.., %s)" % (ta,))
+                S = self.state_var()
+                return "find_field (rec_fuel %s) (s_recs %s) %s %s" % (S, S, atom(c), atom(a)), ("opt", "RecordFieldId")
+            if t == "mty" and m == "can_be_casted_to" and len(args) == 2:
+                b, tb = self.tr(args[1], env)
+                if tb != "mty":
+                    self.no(line, "can_be_casted_to(.., %s)" % (tb,))
+                S = self.state_var()
+                return "can_cast %s %s %s" % (S, atom(c), atom(b)), "bool"
+            if isinstance(t, tuple) and t[0] == "list" and m == "next" and not args:
+                return "hd_error %s" % atom(c), ("opt", t[1])
             if isinstance(t, tuple) and t[0] == "opt" and m == "is_some" and not args:
                 return "match %s with Some _ => true | None => false end" % c, "bool"
             self.no(line, "method .%s on %s" % (m, t))
@@ -1048,10 +1183,29 @@ class IxGen:
             self.no(0, "array expression")
         self.no(e[-1] if isinstance(e[-1], int) else 0, "expression %s" % k)
 
+    def state_var(self):
+        """the variable that holds the current state while an expression that reads the context is translated"""
+        if self.sv is None:
+            self.no(0, "expression that reads the context in a position where no state is available")
+        self.sv_used = True
+        return self.sv
+
+    def tr_st(self, e, env):
+        """(prefix `sK <- state ;; ` if the expression reads the context, code, type)"""
+        self.svn = getattr(self, "svn", 0) + 1
+        old = (getattr(self, "sv", None), getattr(self, "sv_used", False))
+        self.sv, self.sv_used = "s%d" % self.svn, False
+        try:
+            c, t = self.tr(e, env)
+            pre = "%s <- state ;; " % self.sv if self.sv_used else ""
+        finally:
+            self.sv, self.sv_used = old
+        return pre, c, t
+
     def node_ty(self, rt):
         if isinstance(rt, tuple) and rt[0] in ("opt", "list"):
             inner = rt[1]
-            if inner in NODE_COQ or inner in NODES:
+            if inner in NODE_COQ or inner in NODES or inner in VALUE_ENUMS or inner in ENUM_NODES:
                 return (rt[0], ("node", inner))
             return rt
         return rt
@@ -1079,7 +1233,7 @@ class IxGen:
                 if not (isinstance(t, tuple) and t[0] == "node"):
                     self.no(line, ".index(ctx) on %s" % (t,))
                 call = "%s %s" % (self.ix(t[1]), atom(c))
-                return pre, call, IX_RET[t[1]]
+                return pre, call, IX_TY.get(t[1], "unit")
             if m == "unwrap_or" and len(args) == 1:
                 pre, inner, it = self.m_expr(recv, env)
                 d, dt = self.tr(args[0], env)
@@ -1150,6 +1304,8 @@ class IxGen:
             pre, c, t = self.opt_chain(e[2][0], env)
             if t != ("node", "Identifier"):
                 self.no(line, "utils::identifier(%s)" % (t,))
+            if c == "self":
+                c = "n_i"
             return pre, "src_utils_identifier %s" % atom(c), ("tuple", ["name", "rng"])
         self.no(line, "expression with effects outside the subset")
 
@@ -1167,58 +1323,159 @@ class IxGen:
         c, t = self.tr(e, env)
         return pre, c, t
 
+    def hoist(self, e, env):
+        """replace every `x?` (x a pure Option) inside e by a fresh variable bound with `q <- lift x ;;` (early return)"""
+        if not isinstance(e, tuple):
+            return "", e
+        if e and e[0] == "try":
+            pre, inner = self.hoist(e[1], env)
+            p2, c, t = self.tr_st(inner, env)
+            if not (isinstance(t, tuple) and t[0] == "opt"):
+                self.no(e[2], "`?` on %s" % (t,))
+            self.qn = getattr(self, "qn", 0) + 1
+            q = "q%d" % self.qn
+            env[q] = (q, t[1])
+            return pre + p2 + "%s <- lift %s ;; " % (q, atom(c)), ("path", [q], e[2])
+        if e and e[0] in ("closure", "block", "match", "if", "iflet"):
+            return "", e
+        pre, out = "", []
+        for x in e:
+            if isinstance(x, tuple):
+                p2, x2 = self.hoist(x, env)
+                pre += p2
+                out.append(x2)
+            elif isinstance(x, list):
+                xs = []
+                for y in x:
+                    p2, y2 = self.hoist(y, env) if isinstance(y, tuple) else ("", y)
+                    pre += p2
+                    xs.append(y2)
+                out.append(xs)
+            else:
+                out.append(x)
+        return pre, tuple(out)
+
     def seq(self, stmts, i, tail, env, indent):
+        env = dict(env)
         if i == len(stmts):
             if tail is None:
                 self.no(0, "body without a tail")
             if tail[0] == "path" and tail[1] == ["None"]:
                 return indent + "none"
             if tail[0] == "call" and tail[1][0] == "path" and tail[1][1] == ["Some"] and len(tail[2]) == 1:
-                c, t = self.tr(tail[2][0], env)
-                return indent + "ret %s" % atom(c)
+                pre, x = self.hoist(tail[2][0], env)
+                p2, c, t = self.tr_st(x, env)
+                return indent + pre + p2 + "ret %s" % atom(c)
             if tail[0] == "match":
-                T = env["self"][1][1] if "self" in env else None
-                if T in VALUE_ENUMS:
+                T = env["self"][1][1] if "self" in env and isinstance(env["self"][1], tuple) else None
+                if tail[1][0] == "path" and tail[1][1] == ["self"] and T in VALUE_ENUMS:
                     return self.value_enum(tail, env, indent, T)
-                return self.dispatch(tail, env, indent)
-            pre, m, t = self.m_expr(tail, env)
-            return indent + pre + m
+                if tail[1][0] == "path" and tail[1][1] == ["self"]:
+                    return self.dispatch(tail, env, indent)
+                pre0, sc = self.hoist(tail[1], env)
+                try:
+                    p2, c, t = self.tr_st(sc, env)
+                except Refuse:
+                    t = None
+                if isinstance(t, tuple) and t[0] == "node" and t[1] in VALUE_ENUMS:
+                    return indent + pre0 + "\n" + self.value_enum(("match", sc, tail[2], tail[3]), env, indent, t[1], scrut_code=c)
+                return self.match_tail(tail, env, indent)
+            try:
+                pre, m, t = self.m_expr(tail, env)
+                return indent + pre + m
+            except Refuse:
+                pre0, x = self.hoist(tail, env)
+                p2, c, t = self.tr_st(x, env)
+                if isinstance(t, tuple) and t[0] == "opt":
+                    return indent + pre0 + p2 + "lift %s" % atom(c)
+                raise
         s = stmts[i]
         k = s[0]
         line = s[-1] if isinstance(s[-1], int) else 0
-        rest = lambda env2=env: self.seq(stmts, i + 1, tail, env2, indent)
+        rest = lambda env2=None: self.seq(stmts, i + 1, tail, env if env2 is None else env2, indent)
         if k == "expr":
-            pre, m, t = self.m_expr(s[1], env)
-            return "%s%s(%s) ;;\n%s" % (indent, pre, m, rest())
+            e = s[1]
+            if e[0] == "macro":
+                if e[1] == ["tracing", "debug"]:
+                    return rest()
+                if e[1] == ["panic"]:
+                    return indent + "bad"
+                self.no(line, "macro %s!" % "::".join(e[1]))
+            # <borrow>.add_*(..)
+            if e[0] == "mcall" and e[1][0] == "path" and len(e[1][1]) == 1 and e[1][1][0] in env \
+                    and isinstance(env[e[1][1][0]][1], tuple) and env[e[1][1][0]][1][0] == "mutH":
+                idc, (_, how) = env[e[1][1][0]]
+                tab = {("record_mut", "add_record_field"): ("rec_add_field", ["name", "RecordFieldId"]),
+                       ("record_mut", "add_template_arg"): ("rec_add_targ", ["name", "TemplateArgumentId"]),
+                       ("record_mut", "add_parent"): ("rec_add_parent", ["RecordId"]),
+                       ("multiclass_mut", "add_template_arg"): ("mc_add_targ", ["name", "TemplateArgumentId"]),
+                       ("multiclass_mut", "add_parent"): ("mc_add_parent", ["MulticlassId"])}
+                if (how, e[2]) not in tab or len(e[3]) != len(tab[(how, e[2])][1]):
+                    self.no(line, "method .%s through a %s borrow" % (e[2], how))
+                fn_, want = tab[(how, e[2])]
+                cs = []
+                for a, w in zip(e[3], want):
+                    c, t = self.tr(a, env)
+                    if t != w:
+                        self.no(line, "%s: argument of type %s, expected %s" % (e[2], t, w))
+                    cs.append(atom(c))
+                return "%s(%s %s (%s %s)) ;;\n%s" % (indent, how, atom(idc), fn_, " ".join(cs), rest())
+            # ctx.symbol_map.add_reference(id, loc)
+            if e[0] == "mcall" and e[2] == "add_reference" and len(e[3]) == 2 and e[1][0] == "field" and e[1][2] == "symbol_map":
+                a, ta = self.tr(e[3][0], env)
+                b, tb = self.tr(e[3][1], env)
+                if ta not in ID_SYM or tb != "rng":
+                    self.no(line, "add_reference(%s, %s)" % (ta, tb))
+                return "%s(add_reference (%s %s) %s) ;;\n%s" % (indent, ID_SYM[ta], atom(a), atom(b), rest())
+            pre0, e2 = self.hoist(e, env)
+            pre, m, t = self.m_expr(e2, env)
+            return "%s%s%s(%s) ;;\n%s" % (indent, pre0, pre, m, rest())
         if k == "let":
             pat, ty, e, els = s[1], s[2], s[3], s[4]
             if els is not None:
                 self.no(line, "let-else")
             q = e
+            while q[0] == "mcall" and q[2] == "clone" and not q[3]:
+                q = q[1]
+            # <leaf handle>.typ
+            if q[0] == "field" and q[2] == "typ" and q[1][0] == "path" and len(q[1][1]) == 1 and q[1][1][0] in env \
+                    and env[q[1][1][0]][1] == ("leafH",) and pat[0] == "pbind":
+                self.qn = getattr(self, "qn", 0) + 1
+                lf = "lf%d" % self.qn
+                env[pat[1]] = ("v_" + pat[1], "mty")
+                return "%s%s <- leaf_of %s ;;\n%slet v_%s := lf_ty %s in\n%s" % (indent, lf, atom(env[q[1][1][0]][0]), indent, pat[1], lf, rest())
+            # <Option read from the context>.expect("..")
+            if q[0] == "mcall" and q[2] == "expect" and pat[0] == "pbind":
+                pre, c, t = self.tr_st(q[1], env)
+                if not (isinstance(t, tuple) and t[0] == "opt"):
+                    self.no(line, "expect on %s" % (t,))
+                env[pat[1]] = ("v_" + pat[1], t[1])
+                return "%s%smatch %s with\n%s| None => bad\n%s| Some v_%s =>\n%s\n%send" % (
+                    indent, pre, c, indent, indent, pat[1], self.seq(stmts, i + 1, tail, env, indent + "    "), indent)
             tried = False
             if q[0] == "try":
                 q, tried = q[1], True
+            pre0, q = self.hoist(q, env)
             pure = None
             try:
-                pure = self.tr(q, env)
+                pure = self.tr_st(q, env)
             except Refuse:
                 pure = None
-            env2 = dict(env)
             if pure is not None and tried:
-                c, t = pure
+                p2, c, t = pure
                 if pat[0] != "pbind" or not (isinstance(t, tuple) and t[0] == "opt"):
                     self.no(line, "`?` on %s" % (t,))
-                env2[pat[1]] = ("v_" + pat[1], t[1])
-                return "%sv_%s <- lift %s ;;\n%s" % (indent, pat[1], atom(c), rest(env2))
+                env[pat[1]] = ("v_" + pat[1], t[1])
+                return "%s%s%sv_%s <- lift %s ;;\n%s" % (indent, pre0, p2, pat[1], atom(c), rest())
             if pure is not None:
-                c, t = pure
+                p2, c, t = pure
                 if pat[0] != "pbind":
                     self.no(line, "let pattern")
-                if isinstance(t, tuple) and t[0] in ("RecordV", "McV"):
-                    env2[pat[1]] = (c, t)
-                    return rest(env2)
-                env2[pat[1]] = ("v_" + pat[1], t)
-                return "%slet v_%s := %s in\n%s" % (indent, pat[1], c, rest(env2))
+                if isinstance(t, tuple) and t[0] in ("RecordV", "McV", "recH", "leafH", "mutH"):
+                    env[pat[1]] = (c, t)
+                    return (indent + pre0 + p2 + "\n" if (pre0 or p2) else "") + rest()
+                env[pat[1]] = ("v_" + pat[1], t)
+                return "%s%s%slet v_%s := %s in\n%s" % (indent, pre0, p2, pat[1], c, rest())
             pre, m, t = self.m_expr(q, env)
             if t == "(name * N)":
                 t = ("tuple", ["name", "VariableId"])
@@ -1226,26 +1483,52 @@ class IxGen:
                 self.no(line, "Option-valued call bound without `?`")
             if pat[0] == "ptuple" and isinstance(t, tuple) and t[0] == "tuple" and len(pat[1]) == len(t[1]) == 2:
                 a, b = pat[1][0][1], pat[1][1][1]
-                env2[a] = ("v_" + a, t[1][0])
-                env2[b] = ("v_" + b, t[1][1])
-                return "%s%sp <- (%s) ;;\n%slet v_%s := fst p in\n%slet v_%s := snd p in\n%s" % (indent, pre, m, indent, a, indent, b, rest(env2))
+                env[a] = ("v_" + a, t[1][0])
+                env[b] = ("v_" + b, t[1][1])
+                return "%s%s%sp <- (%s) ;;\n%slet v_%s := fst p in\n%slet v_%s := snd p in\n%s" % (
+                    indent, pre0, pre, m, indent, a, indent, b, rest())
             if pat[0] != "pbind":
                 self.no(line, "let pattern")
-            env2[pat[1]] = ("v_" + pat[1], t)
-            return "%s%sv_%s <- (%s) ;;\n%s" % (indent, pre, pat[1], m, rest(env2))
+            env[pat[1]] = ("v_" + pat[1], t)
+            return "%s%s%sv_%s <- (%s) ;;\n%s" % (indent, pre0, pre, pat[1], m, rest())
         if k == "ifstmt":
             e = s[1]
-            if e[0] == "iflet" and e[1][0] == "psome" and e[1][1][0] == "pbind" and e[4] is None and e[3][2] is None:
-                c, t = self.tr(e[2], env)
+            ind2 = indent + "    "
+
+            def branch(b):
+                if b is None:
+                    return self.seq(stmts, i + 1, tail, env, ind2)
+                if b[2] is not None:
+                    self.no(line, "`if` block with a value")
+                stm = b[1]
+                if stm and stm[-1][0] == "return":
+                    return self.seq(stm[:-1], 0, stm[-1][1], env, ind2)
+                if stm and stm[-1][0] == "expr" and stm[-1][1][0] == "macro" and stm[-1][1][1] == ["panic"]:
+                    return self.seq(stm, 0, ("path", ["None"], line), env, ind2)
+                return self.seq(stm + stmts[i + 1:], 0, tail, env, ind2)
+            if e[0] == "iflet":
+                pat, ex, a, b = e[1], e[2], e[3], e[4]
+                if pat[0] != "psome":
+                    self.no(line, "if let pattern")
+                pre, c, t = self.tr_st(ex, env)
                 if not (isinstance(t, tuple) and t[0] == "opt"):
                     self.no(line, "if let Some(..) on %s" % (t,))
-                x = e[1][1][1]
-                env2 = dict(env)
-                env2[x] = ("v_" + x, t[1])
-                inner = self.seq(e[3][1] + stmts[i + 1:], 0, tail, env2, indent + "    ")
-                return "%smatch %s with\n%s| Some v_%s =>\n%s\n%s| None =>\n%s\n%send" % (
-                    indent, c, indent, x, inner, indent, self.seq(stmts, i + 1, tail, env, indent + "    "), indent)
-            self.no(line, "if form")
+                inner = pat[1]
+                while inner[0] in ("pref", "pmut"):
+                    inner = inner[1]
+                if inner[0] != "pbind":
+                    self.no(line, "if let pattern")
+                saved = dict(env)
+                env[inner[1]] = ("v_" + inner[1], t[1])
+                yes = branch(a)
+                env.clear()
+                env.update(saved)
+                return "%s%smatch %s with\n%s| Some v_%s =>\n%s\n%s| None =>\n%s\n%send" % (
+                    indent, pre, c, indent, inner[1], yes, indent, branch(b), indent)
+            pre, c, t = self.tr_st(e[1], env)
+            if t != "bool":
+                self.no(line, "condition of type %s" % (t,))
+            return "%s%sif %s then\n%s\n%selse\n%s" % (indent, pre, c, branch(e[2]), indent, branch(e[3]))
         if k == "for":
             pat, it, body = s[1], s[2], s[3]
             c, t = self.tr(it, env)
@@ -1253,7 +1536,6 @@ class IxGen:
                 self.no(line, "for form")
             env2 = dict(env)
             env2[pat[1]] = ("v_" + pat[1], t[1])
-            # the body: statements whose results are ignored
             parts = []
             for s2 in body[1]:
                 if s2[0] != "expr":
@@ -1263,15 +1545,42 @@ class IxGen:
                     self.no(line, "`?` inside a for body")
                 parts.append("(%s)" % m)
             return "%siterM (fun v_%s => %s) %s ;;\n%s" % (indent, pat[1], " ;; ".join(parts), atom(c), rest())
+        if k == "return":
+            if i != len(stmts) - 1:
+                self.no(line, "statements after return")
+            return self.seq([], 0, s[1], env, indent)
         self.no(line, "statement %s" % k)
 
-    def value_enum(self, e, env, indent, T):
+    def match_tail(self, e, env, indent):
+        """match <Option read from the context / bound> { Some(x) => {..} None => {..} } as the value of the fn"""
         scrut, arms, line = e[1], e[2], e[3]
-        if scrut[0] != "path" or scrut[1] != ["self"]:
+        pre, c, t = self.tr_st(scrut, env)
+        if not (isinstance(t, tuple) and t[0] == "opt") or len(arms) != 2:
+            self.no(line, "match on %s" % (t,))
+        texts = []
+        for pat, body in arms:
+            env2 = dict(env)
+            if pat[0] == "psome" and pat[1][0] == "pbind":
+                env2[pat[1][1]] = ("v_" + pat[1][1], t[1])
+                head = "Some v_%s" % pat[1][1]
+            elif pat[0] == "pnone":
+                head = "None"
+            else:
+                self.no(line, "match pattern")
+            texts.append("%s| %s =>\n%s" % (indent, head, self.seq(body[1], 0, body[2], env2, indent + "    ")))
+        return "%s%smatch %s with\n%s\n%send" % (indent, pre, c, "\n".join(texts), indent)
+
+    def value_enum(self, e, env, indent, T, scrut_code=None):
+        scrut, arms, line = e[1], e[2], e[3]
+        if scrut_code is None and (scrut[0] != "path" or scrut[1] != ["self"]):
             self.no(line, "match on something other than self")
         table = VALUE_ENUMS[T]
         groups, covered = {}, []
+        wild = None
         for pat, body in arms:
+            if pat[0] == "pwild":
+                wild = "%s| _ =>\n%s" % (indent, self.seq(body[1], 0, body[2], env, indent + "    "))
+                continue
             pats = pat[1] if pat[0] == "por" else [pat]
             ctors = set()
             bound = None
@@ -1285,6 +1594,8 @@ class IxGen:
                     if len(q[2]) != 1 or q[2][0][0] != "pbind":
                         self.no(line, "sub-pattern")
                     bound = (q[2][0][1], sub)
+                elif q[2] and not (len(q[2]) == 1 and q[2][0][0] == "pwild"):
+                    self.no(line, "sub-pattern of a constant variant")
             if len(ctors) != 1:
                 self.no(line, "or-pattern over variants that are different CoreAst constructors")
             ctor = ctors.pop()
@@ -1295,12 +1606,11 @@ class IxGen:
             if bound:
                 env2[bound[0]] = ("v_" + bound[0], ("node", bound[1]))
                 cpat = "%s v_%s" % (ctor, bound[0])
-            if body[1]:
-                self.no(line, "arm with statements")
-            groups[ctor] = "%s| %s =>\n%s" % (indent, cpat, self.seq([], 0, body[2], env2, indent + "    "))
-        if sorted(set(covered)) != sorted(table):
+            groups[ctor] = "%s| %s =>\n%s" % (indent, cpat, self.seq(body[1], 0, body[2], env2, indent + "    "))
+        if wild is None and sorted(set(covered)) != sorted(table):
             self.no(line, "match does not cover exactly the variants of %s" % T)
-        return "%smatch self_node with\n%s\n%send" % (indent, "\n".join(groups.values()), indent)
+        texts = list(groups.values()) + ([wild] if wild else [])
+        return "%smatch %s with\n%s\n%send" % (indent, scrut_code or "self_node", "\n".join(texts), indent)
 
     def dispatch(self, e, env, indent):
         """match self { ast::T::V(x) => x.index(ctx), .. }"""
@@ -1355,7 +1665,7 @@ def translate(repo):
     g = Gen3()
     out = ["(* GENERATED by tools/translate/t_indexer.py from crates/ide/src/index/scope.rs, index/context.rs (and, function by"
            " function, index.rs) -- do not edit *)",
-           "From Coq Require Import List NArith Bool.", "From TG.Model Require Import CoreAst Scope IndexerSrc.",
+           "From Coq Require Import List NArith Bool.", "From TG.Model Require Import CoreAst Scope BangOps Indexer IndexerSrc.",
            "Import ListNotations.", "Open Scope N_scope.", "Open Scope ix_scope.", ""]
     rendered, refused = [], []
     # Scope first (Scopes uses it), then Scopes, then IndexCtx; inside an impl callees first (two passes)
@@ -1430,6 +1740,10 @@ def translate(repo):
                 env = {"identifier": ("self", ("node", "Identifier")), "ctx": ("ctx", "ctx")}
                 params = NODES["Identifier"][0]
                 name, ret = "src_utils_identifier", "(name * rng)"
+            elif T is None and label == "index_name_value":
+                env = {"value": ("v_value", ("node", "Value")), "ctx": ("ctx", "ctx")}
+                params = [("v_value", "value")]
+                name, ret = "src_index_name_value", "(name * rng)"
             elif T is not None and (T in NODES or T in ENUM_NODES or T in VALUE_ENUMS):
                 env = {"self": ("self", ("node", T)), "ctx": ("ctx", "ctx")}
                 params = NODES[T][0] if T in NODES else [("self_node", ENUM_NODES[T][0] if T in ENUM_NODES else NODE_COQ[T])]
